@@ -237,7 +237,7 @@ ABTU_ret_err static inline int ABTI_ktable_set(ABTI_global *p_global,
             if (ABTD_atomic_bool_cas_weak_ptr(pp_ktable, NULL,
                                               ABTI_KTABLE_LOCKED)) {
                 /* The lock was acquired, so let's allocate this table. */
-                ABTI_VERIF_COV(ABTI_VERIF_C_KTABLE_CREATED);
+                ABTI_VERIF_POINT(ABTI_VERIF_C_KTABLE_CREATED);
                 abt_errno = ABTI_ktable_create(p_global, p_local, &p_ktable);
                 if (abt_errno != ABT_SUCCESS) {
                     ABTD_atomic_release_store_ptr(pp_ktable, NULL);
